@@ -43,7 +43,15 @@ Definition property (sc : scen) (o : obs) : verdict :=
   let nofill := Nat.eqb (length (filter (fun e => match e with (k, _, p, _) => (k =? 5) && (p =? 64) end) evs)) 0 in
   let p4 := (o_errgot o <=? 1)
             && (negb (nofill && (1 <=? sc_ecap sc) && Nat.leb 1 ncas && (o_stuck o =? 0)) || (o_errgot o =? 1))
-            && (negb (sc_ecap sc <=? 0) || (o_errgot o =? 0)) in
+            && (negb (sc_ecap sc <=? 0) || (o_errgot o =? 0))
+            (* ... it is printable (Error() mentions the remote address, does not panic) and it is the
+               winner's: Close offers ErrConnForceClose, ForceClose the error it was given, the reader its read error *)
+            && (o_errkind o <? 10)
+            && (negb (o_errgot o =? 1) ||
+                match filter is_cas evs with
+                | (k, _, p, _) :: _ => (o_errkind o) =? (if k =? 2 then 3 else if p =? 31 then 1 else 2)
+                | [] => true
+                end) in
   (* 5: closing is idempotent: one CAS winner, every Close / ForceClose call returned *)
   let p5 := Nat.leb ncas 1
             && (negb (conclusive && (o_stuck o =? 0) && (o_panics o =? 0)) || forallb (fun r => r =? 1) (o_closeres o)) in
